@@ -22,22 +22,25 @@ theorem feedAll_nil (e : Env) (n : NState) : feedAll e n [] = n := rfl
 theorem feedAll_cons (e : Env) (n : NState) (x : ISax) (xs : List ISax) :
     feedAll e n (x :: xs) = feedAll e (n.feed e x) xs := rfl
 
-theorem flush_bad_mono (e : Env) (n : NState) (c : Bool) (h : (n.flush e c).bad = false) : n.bad = false := by
-  unfold NState.flush at h
-  split at h
-  · exact h
-  · split at h
-    · split at h <;> exact h
-    · simp only [Bool.or_eq_false_iff] at h; exact h.1
+/-- what `flush` leaves alone -/
+theorem flush_keeps (e : Env) (n : NState) (c : Bool) :
+    (n.flush e c).bad = n.bad ∧ (n.flush e c).depth = n.depth ∧ (n.flush e c).prevOpen = n.prevOpen
+      ∧ (n.flush e c).buf = [] := by
+  unfold NState.flush
+  split
+  · rename_i h; exact ⟨rfl, rfl, rfl, by simpa [List.isEmpty_iff] using h⟩
+  · split <;> exact ⟨rfl, rfl, rfl, rfl⟩
 
 theorem feed_bad_mono (e : Env) (n : NState) (x : ISax) (h : (n.feed e x).bad = false) : n.bad = false := by
   cases x with
   | ws s => exact h
   | sax y =>
     cases y with
-    | chars s => exact h
-    | «open» q a => exact flush_bad_mono e n false h
-    | close q => exact flush_bad_mono e n true h
+    | chars s =>
+      simp only [NState.feed, Bool.or_eq_false_iff] at h
+      exact h.1
+    | «open» q a => simpa [NState.feed, (flush_keeps e n false).1] using h
+    | close q => simpa [NState.feed, (flush_keeps e n true).1] using h
 
 theorem feedAll_bad_mono (e : Env) (n : NState) (xs : List ISax) (h : (feedAll e n xs).bad = false) :
     n.bad = false := by
@@ -45,139 +48,104 @@ theorem feedAll_bad_mono (e : Env) (n : NState) (xs : List ISax) (h : (feedAll e
   | nil => exact h
   | cons x xs ih => exact feed_bad_mono e n x (ih _ h)
 
-/-- the relation between the reader's state on the indented and on the plain stream;
-`g` = the next tag call is known to be a start tag -/
-def Sim (e : Env) (g : Bool) (nI nP : NState) : Prop :=
+/-- the relation between the reader's state on the indented and on the plain stream: same output so
+far, and the pending character runs are the same or the indented one is pure layout where the plain
+one has nothing -/
+def Sim (e : Env) (nI nP : NState) : Prop :=
   nI.emitted = nP.emitted ∧ nI.prevOpen = nP.prevOpen ∧
-    (nI.buf = nP.buf ∨ (W e nI.buf = W e nP.buf ∧ (nP.prevOpen = true → g = true)))
+    (nI.buf = nP.buf ∨ (nP.buf = [] ∧ W e nI.buf = true))
 
-theorem Sim.ws {e : Env} {g : Bool} {nI nP : NState} (h : Sim e g nI nP) (c : Str) (hc : W e c = true)
-    (hg : nP.prevOpen = true → g = true) : Sim e g (nI.feed e (.ws c)) nP := by
+theorem Sim.ws {e : Env} {nI nP : NState} (h : Sim e nI nP) (c : Str) (hc : W e c = true)
+    (hb : nP.buf = []) : Sim e (nI.feed e (.ws c)) nP := by
   obtain ⟨h1, h2, h3⟩ := h
-  refine ⟨h1, h2, Or.inr ⟨?_, hg⟩⟩
-  simp only [NState.feed, W, List.all_append]
+  refine ⟨h1, h2, Or.inr ⟨hb, ?_⟩⟩
+  simp only [NState.feed, W, List.all_append, Bool.and_eq_true]
+  refine ⟨?_, hc⟩
   rcases h3 with h3 | h3
-  · rw [h3]; simp only [W] at hc; rw [hc, Bool.and_true]
-  · simp only [W] at hc h3; rw [hc, Bool.and_true]; exact h3.1
+  · rw [h3, hb]; rfl
+  · exact h3.2
 
-theorem Sim.chars {e : Env} {g : Bool} {nI nP : NState} (h : Sim e g nI nP) (s : Str) :
-    Sim e g (nI.feed e (.sax (.chars s))) (nP.feed e (.sax (.chars s))) := by
-  obtain ⟨h1, h2, h3⟩ := h
-  refine ⟨h1, h2, ?_⟩
-  simp only [NState.feed]
-  rcases h3 with h3 | h3
-  · exact Or.inl (by rw [h3])
-  · refine Or.inr ⟨?_, h3.2⟩
-    simp only [W, List.all_append] at h3 ⊢
-    rw [h3.1]
+theorem Sim.chars {e : Env} {nI nP : NState} (h : Sim e nI nP) (heq : nI.buf = nP.buf) (s : Str) :
+    Sim e (nI.feed e (.sax (.chars s))) (nP.feed e (.sax (.chars s)))
+      ∧ (nI.feed e (.sax (.chars s))).buf = (nP.feed e (.sax (.chars s))).buf := by
+  obtain ⟨h1, h2, _⟩ := h
+  refine ⟨⟨h1, h2, Or.inl ?_⟩, ?_⟩ <;> simp only [NState.feed] <;> rw [heq]
 
-theorem Sim.weaken {e : Env} {g g' : Bool} {nI nP : NState} (h : Sim e g nI nP) (hg : g = true → g' = true) :
-    Sim e g' nI nP := by
-  obtain ⟨h1, h2, h3⟩ := h
-  refine ⟨h1, h2, ?_⟩
-  rcases h3 with h3 | h3
-  · exact Or.inl h3
-  · exact Or.inr ⟨h3.1, fun hp => hg (h3.2 hp)⟩
-
-/-- flushing in a context that is not "whole content of a leaf" -/
-theorem flush_nonleaf {e : Env} {g : Bool} {nI nP : NState} (c : Bool) (h : Sim e g nI nP)
-    (hctx : nI.buf ≠ nP.buf → (nP.prevOpen && c) = false)
-    (hb : (nP.flush e c).bad = false) :
-    (nI.flush e c).emitted = (nP.flush e c).emitted ∧ (nI.flush e c).prevOpen = (nP.flush e c).prevOpen
-      ∧ (nI.flush e c).buf = [] ∧ (nP.flush e c).buf = [] := by
+/-- flushing when the two runs are equal, or the indented one is layout in a place where layout is
+dropped -/
+theorem flush_sim {e : Env} {nI nP : NState} (c : Bool) (h : Sim e nI nP)
+    (hctx : nI.buf ≠ nP.buf → (nP.prevOpen && c) = false) :
+    (nI.flush e c).emitted = (nP.flush e c).emitted := by
   obtain ⟨h1, h2, h3⟩ := h
   by_cases heq : nI.buf = nP.buf
-  · have : nI.flush e c = { nP.flush e c with bad := (nI.flush e c).bad } := by
-      unfold NState.flush
-      rw [heq, h1, h2]
-      split
-      · cases nI; cases nP; simp_all
-      · split
-        · split <;> rfl
-        · rfl
-    rw [this]
-    refine ⟨rfl, rfl, ?_, ?_⟩ <;>
-    · unfold NState.flush
-      split
-      · rename_i h; simpa [List.isEmpty_iff] using h
-      · split
-        · split <;> rfl
-        · rfl
+  · unfold NState.flush
+    rw [heq, h2]
+    split
+    · exact h1
+    · split
+      · exact h1
+      · simp [h1]
   · have hc := hctx heq
-    have hw : W e nI.buf = W e nP.buf := by
-      rcases h3 with h3 | h3
-      · exact absurd h3 heq
-      · exact h3.1
-    have hcI : (nI.prevOpen && c) = false := by rw [h2]; exact hc
-    -- the plain buffer is whitespace only, otherwise the flush marks `bad`
-    have hWP : W e nP.buf = true := by
-      by_cases hemp : nP.buf.isEmpty = true
-      · have : nP.buf = [] := by simpa [List.isEmpty_iff] using hemp
-        simp [W, this]
-      · cases hW : W e nP.buf with
-        | true => rfl
-        | false =>
-          exfalso
-          unfold NState.flush at hb
-          simp only [hemp, W] at hb hW
-          simp [hW, hc] at hb
-    have hWI : W e nI.buf = true := hw.trans hWP
-    have fI : nI.flush e c = if nI.buf.isEmpty then nI else { nI with buf := [] } := by
-      unfold NState.flush
-      simp only [W] at hWI
-      simp [hWI, hcI]
-    have fP : nP.flush e c = if nP.buf.isEmpty then nP else { nP with buf := [] } := by
-      unfold NState.flush
-      simp only [W] at hWP
-      simp [hWP, hc]
-    rw [fI, fP]
-    refine ⟨?_, ?_, ?_, ?_⟩
-    · split <;> split <;> exact h1
-    · split <;> split <;> exact h2
-    · split
-      · rename_i h; simpa [List.isEmpty_iff] using h
-      · rfl
-    · split
-      · rename_i h; simpa [List.isEmpty_iff] using h
-      · rfl
+    rcases h3 with h3 | ⟨hb, hw⟩
+    · exact absurd h3 heq
+    · have hcI : (nI.prevOpen && c) = false := by rw [h2]; exact hc
+      have fP : nP.flush e c = nP := by unfold NState.flush; simp [hb]
+      have fI : (nI.flush e c).emitted = nI.emitted := by
+        unfold NState.flush
+        simp only [W] at hw
+        split
+        · rfl
+        · simp [hw, hcI]
+      rw [fP, fI, h1]
 
-theorem Sim.open {e : Env} {g : Bool} {nI nP : NState} (h : Sim e g nI nP) (q : QN) (a : List (QN × Str))
-    (hb : (nP.feed e (.sax (.open q a))).bad = false) (g' : Bool) :
-    Sim e g' (nI.feed e (.sax (.open q a))) (nP.feed e (.sax (.open q a))) := by
-  have hf := flush_nonleaf (e := e) false h (by intro _; simp) hb
-  obtain ⟨f1, _, f3, f4⟩ := hf
-  refine ⟨?_, rfl, Or.inl ?_⟩
-  · simp only [NState.feed]; rw [f1]
-  · simp only [NState.feed]; rw [f3, f4]
+theorem Sim.open {e : Env} {nI nP : NState} (h : Sim e nI nP) (q : QN) (a : List (QN × Str)) :
+    Sim e (nI.feed e (.sax (.open q a))) (nP.feed e (.sax (.open q a)))
+      ∧ (nI.feed e (.sax (.open q a))).buf = (nP.feed e (.sax (.open q a))).buf := by
+  have hf := flush_sim (e := e) false h (by intro _; simp)
+  have kI := flush_keeps e nI false
+  have kP := flush_keeps e nP false
+  refine ⟨⟨?_, rfl, Or.inl ?_⟩, ?_⟩
+  · simp only [NState.feed]; rw [hf]
+  · simp only [NState.feed]; rw [kI.2.2.2, kP.2.2.2]
+  · simp only [NState.feed]; rw [kI.2.2.2, kP.2.2.2]
 
-theorem Sim.close {e : Env} {nI nP : NState} (h : Sim e false nI nP) (q : QN)
-    (hb : (nP.feed e (.sax (.close q))).bad = false) (g' : Bool) :
-    Sim e g' (nI.feed e (.sax (.close q))) (nP.feed e (.sax (.close q))) := by
-  have hctx : nI.buf ≠ nP.buf → (nP.prevOpen && true) = false := by
-    intro hne
-    rcases h.2.2 with h3 | h3
-    · exact absurd h3 hne
-    · cases hp : nP.prevOpen with
-      | false => rfl
-      | true => exact absurd (h3.2 hp) (by decide)
-  have hf := flush_nonleaf (e := e) true h hctx hb
-  obtain ⟨f1, _, f3, f4⟩ := hf
-  refine ⟨?_, rfl, Or.inl ?_⟩
-  · simp only [NState.feed]; rw [f1]
-  · simp only [NState.feed]; rw [f3, f4]
+theorem Sim.close {e : Env} {nI nP : NState} (h : Sim e nI nP) (q : QN)
+    (hctx : nI.buf ≠ nP.buf → nP.prevOpen = false) :
+    Sim e (nI.feed e (.sax (.close q))) (nP.feed e (.sax (.close q)))
+      ∧ (nI.feed e (.sax (.close q))).buf = (nP.feed e (.sax (.close q))).buf := by
+  have hf := flush_sim (e := e) true h (by intro hne; rw [hctx hne]; rfl)
+  have kI := flush_keeps e nI true
+  have kP := flush_keeps e nP true
+  refine ⟨⟨?_, rfl, Or.inl ?_⟩, ?_⟩
+  · simp only [NState.feed]; rw [hf]
+  · simp only [NState.feed]; rw [kI.2.2.2, kP.2.2.2]
+  · simp only [NState.feed]; rw [kI.2.2.2, kP.2.2.2]
 
-theorem Sim.finish {e : Env} {g : Bool} {nI nP : NState} (h : Sim e g nI nP)
-    (hb : (nP.flush e false).bad = false) :
+theorem Sim.finish {e : Env} {nI nP : NState} (h : Sim e nI nP) :
     (nI.flush e false).emitted = (nP.flush e false).emitted :=
-  (flush_nonleaf (e := e) false h (by intro _; simp) hb).1
+  flush_sim (e := e) false h (by intro _; simp)
 
-theorem prevOpen_feed_chars (e : Env) (n : NState) (s : Str) :
-    (n.feed e (.sax (.chars s))).prevOpen = n.prevOpen := rfl
+theorem Sim.refl (e : Env) (n : NState) : Sim e n n := ⟨rfl, rfl, Or.inl rfl⟩
 
-theorem prevOpen_feed_close (e : Env) (n : NState) (q : QN) :
-    (n.feed e (.sax (.close q))).prevOpen = false := rfl
+/-! ### `charsInside` is the reader's `bad` flag -/
 
-theorem Sim.refl (e : Env) (g : Bool) (n : NState) : Sim e g n n := ⟨rfl, rfl, Or.inl rfl⟩
+theorem bad_feedAll (e : Env) (xs : List Sax) (n : NState) :
+    (feedAll e n (xs.map ISax.sax)).bad = (n.bad || !charsInsideFrom n.depth xs) := by
+  induction xs generalizing n with
+  | nil => simp [feedAll, charsInsideFrom]
+  | cons x xs ih =>
+    simp only [List.map_cons, feedAll_cons]
+    rw [ih]
+    cases x with
+    | «open» q a =>
+      have k := flush_keeps e n false
+      simp [NState.feed, charsInsideFrom, k.1, k.2.1]
+    | close q =>
+      have k := flush_keeps e n true
+      simp [NState.feed, charsInsideFrom, k.1, k.2.1]
+    | chars s =>
+      simp only [NState.feed, charsInsideFrom]
+      cases n.bad <;> cases h : (n.depth == 0) <;> simp [h, bne]
 
 end Xs.Backends
 
@@ -238,13 +206,9 @@ theorem step_shape (m : NsMap) (isDt : Str → Bool) (w : WState) (ev : Ev) (w' 
         obtain ⟨o, ho, hout, hp, _⟩ := flush_shape w false
         by_cases hs : s.isEmpty = true
         · exact ⟨o, [], by simp [hs, hout], ho, Or.inl rfl, by simp [hs, hp]⟩
-        · by_cases ht : (w.flush false).inTail = true
-          · refine ⟨o, [], ?_, ho, Or.inl rfl, ?_⟩
-            · simp [hs, ht, hout]
-            · simp [hs, ht, hp]
-          · refine ⟨o, [Sax.chars s], ?_, ho, Or.inr ⟨s, rfl⟩, ?_⟩
-            · simp [hs, ht, hout]
-            · simp [hs, ht, hp]
+        · refine ⟨o, [Sax.chars s], ?_, ho, Or.inr ⟨s, rfl⟩, ?_⟩
+          · simp [hs, hout]
+          · simp [hs, hp]
   | «end» q =>
     obtain ⟨o, ho, hout, hp, htl⟩ := flush_shape w true
     simp only [WState.step, Except.ok.injEq] at h
@@ -277,7 +241,8 @@ open Py Xs.Bind
 
 theorem super_of_step {m : NsMap} {isDt : Str → Bool} {s : IState} {ev : Ev} {w' : WState} {d : List Sax}
     (h : s.w.step m isDt ev = .ok w') (hd : w'.out = s.w.out ++ d) :
-    s.super m isDt ev = .ok { s with w := w', out := s.out ++ d.map ISax.sax } := by
+    s.super m isDt ev = .ok { s with w := w', out := s.out ++ d.map ISax.sax,
+                                     afterChars := s.afterChars || d.any Sax.isChars } := by
   unfold IState.super
   rw [h]
   simp [hd]
@@ -298,25 +263,48 @@ theorem W_strMul (e : Env) (i : Str) (n : Int) (h : W e i = true) : W e (strMul 
     simp only [W, List.replicate_succ, List.flatten_cons, List.all_append, Bool.and_eq_true] at ih ⊢
     exact ⟨h, ih⟩
 
+/-- 1 when a start tag is pending -/
+def pend1 (w : WState) : Int := if w.pending.isSome then 1 else 0
+
 /-- the invariant tying the native writer's calls to the inherited handler's calls -/
 structure Inv (e : Env) (s : IState) : Prop where
-  sim : Sim e s.w.pending.isSome (normState e s.out) (normState e (s.w.out.map ISax.sax))
+  sim : Sim e (normState e s.out) (normState e (s.w.out.map ISax.sax))
+  /-- layout is only ever pending in front of a start tag, or outside the root element -/
+  guard : (normState e s.out).buf ≠ (normState e (s.w.out.map ISax.sax)).buf →
+    s.w.pending.isSome = true ∨
+      ((normState e (s.w.out.map ISax.sax)).prevOpen = false ∧ (normState e (s.w.out.map ISax.sax)).depth = 0)
   pend : s.pendingEnd = true →
     s.w.pending = none ∧ (normState e (s.w.out.map ISax.sax)).prevOpen = false
+  flag : s.afterChars = false →
+    (normState e (s.w.out.map ISax.sax)).buf = [] ∨ s.w.pending.isSome = true
+  lvl : s.level = (normState e (s.w.out.map ISax.sax)).depth + pend1 s.w
 
+/-- what feeding the flushed start tag does to both readers -/
 theorem feed_open_part {e : Env} {w : WState} {nI nP : NState} {o : List Sax}
-    (h : Sim e w.pending.isSome nI nP) (ho : OpenPart w o)
-    (hb : (feedAll e nP (o.map ISax.sax)).bad = false) :
-    Sim e false (feedAll e nI (o.map ISax.sax)) (feedAll e nP (o.map ISax.sax)) := by
-  rcases ho with ⟨hp, rfl⟩ | ⟨q, a, _, rfl⟩
-  · simpa [hp, feedAll] using h
-  · simp only [List.map_cons, List.map_nil, feedAll_cons, feedAll_nil] at hb ⊢
-    exact h.open q a hb false
+    (h : Sim e nI nP) (ho : OpenPart w o) :
+    Sim e (feedAll e nI (o.map ISax.sax)) (feedAll e nP (o.map ISax.sax)) ∧
+    (w.pending.isSome = true →
+      (feedAll e nI (o.map ISax.sax)).buf = (feedAll e nP (o.map ISax.sax)).buf ∧
+      (feedAll e nP (o.map ISax.sax)).buf = []) ∧
+    (w.pending = none → o = []) ∧
+    (feedAll e nP (o.map ISax.sax)).depth = nP.depth + pend1 w := by
+  rcases ho with ⟨hp, rfl⟩ | ⟨q, a, hq, rfl⟩
+  · refine ⟨by simpa [feedAll] using h, ?_, fun _ => rfl, ?_⟩
+    · intro hs; rw [hp] at hs; cases hs
+    · simp [feedAll, pend1, hp]
+  · have ho := h.open q a
+    have k := flush_keeps e nP false
+    refine ⟨by simpa [feedAll] using ho.1, ?_, ?_, ?_⟩
+    · intro _
+      refine ⟨by simpa [feedAll] using ho.2, ?_⟩
+      simp [feedAll, NState.feed, k.2.2.2]
+    · intro hn; rw [hn] at hq; cases hq
+    · simp [feedAll, NState.feed, pend1, hq, k.2.1]
 
-theorem feedAll_two (e : Env) (n : NState) (a b : Str) :
-    feedAll e n [ISax.ws a, ISax.ws b] = (n.feed e (.ws a)).feed e (.ws b) := rfl
+theorem depth_feed_chars (e : Env) (n : NState) (s : Str) :
+    (n.feed e (.sax (.chars s))).depth = n.depth := rfl
 
-set_option maxHeartbeats 400000 in
+set_option maxHeartbeats 1000000 in
 theorem step_inv (e : Env) (m : NsMap) (isDt : Str → Bool) (indent : Option Str) (i : Str)
     (hi : indentOn indent = some i) (hW : W e i = true)
     (s : IState) (hinv : Inv e s) (ev : Ev) (w' : WState)
@@ -329,116 +317,302 @@ theorem step_inv (e : Env) (m : NsMap) (isDt : Str → Bool) (indent : Option St
   have hP : normState e (w'.out.map ISax.sax)
       = feedAll e (feedAll e (normState e (s.w.out.map ISax.sax)) (o.map ISax.sax)) (c.map ISax.sax) := by
     rw [hout, List.map_append, List.map_append, normState_append, feedAll_append]
-  have hbo : (feedAll e (normState e (s.w.out.map ISax.sax)) (o.map ISax.sax)).bad = false := by
-    rw [hP] at hbad; exact feedAll_bad_mono e _ _ hbad
+  generalize hnP : normState e (s.w.out.map ISax.sax) = nP at hP
+  generalize hnI : normState e s.out = nI
+  have hsim : Sim e nI nP := by rw [← hnP, ← hnI]; exact hinv.sim
+  have hguard : nI.buf ≠ nP.buf → s.w.pending.isSome = true ∨ (nP.prevOpen = false ∧ nP.depth = 0) := by
+    rw [← hnP, ← hnI]; exact hinv.guard
+  have hpend : s.pendingEnd = true → s.w.pending = none ∧ nP.prevOpen = false := by
+    rw [← hnP]; exact hinv.pend
+  have hflag : s.afterChars = false → nP.buf = [] ∨ s.w.pending.isSome = true := by
+    rw [← hnP]; exact hinv.flag
+  have hlvl : s.level = nP.depth + pend1 s.w := by rw [← hnP]; exact hinv.lvl
   cases ev with
   | attr q d =>
     obtain ⟨rfl, rfl, hp⟩ := hsh
     refine ⟨_, by simp only [IState.step]; exact hsup, rfl, ?_⟩
     have hw : w'.out = s.w.out := by simpa using hout
+    have hpp : pend1 w' = pend1 s.w := by simp [pend1, hp]
     constructor
-    · simpa [hw, hp] using hinv.sim
+    · simpa [hw] using hinv.sim
+    · simpa [hw, hp] using hinv.guard
     · intro h; simpa [hw, hp] using hinv.pend h
+    · intro h; simpa [hw, hp] using hinv.flag (by simpa using h)
+    · simp only [hw, hpp]; exact hinv.lvl
   | data d =>
     obtain ⟨ho, hc, hp⟩ := hsh
     refine ⟨_, by simp only [IState.step]; exact hsup, rfl, ?_⟩
-    have hs1 := feed_open_part hinv.sim ho hbo
-    constructor
-    · simp only [hp, Option.isSome_none, List.map_append, ← List.append_assoc]
-      rw [normState_append, normState_append, hP]
+    obtain ⟨hs1, hsome, hnone, hdep⟩ := feed_open_part hsim ho
+    -- buffers are equal before the characters call, otherwise it is character data outside the root
+    have heq1 : c ≠ [] → (feedAll e nI (o.map ISax.sax)).buf = (feedAll e nP (o.map ISax.sax)).buf := by
+      intro hcne
+      cases hpd : s.w.pending with
+      | some q => exact (hsome (by simp [hpd])).1
+      | none =>
+        have ho' := hnone hpd
+        subst ho'
+        by_cases hb : nI.buf = nP.buf
+        · simpa [feedAll] using hb
+        · exfalso
+          rcases hguard hb with hg | hg
+          · rw [hpd] at hg; cases hg
+          · rcases hc with rfl | ⟨t, rfl⟩
+            · exact hcne rfl
+            · rw [hP] at hbad
+              simp [feedAll, NState.feed, hg.2] at hbad
+    have hsimF : Sim e (feedAll e (feedAll e nI (o.map ISax.sax)) (c.map ISax.sax))
+        (feedAll e (feedAll e nP (o.map ISax.sax)) (c.map ISax.sax)) ∧
+        (c ≠ [] → (feedAll e (feedAll e nI (o.map ISax.sax)) (c.map ISax.sax)).buf
+          = (feedAll e (feedAll e nP (o.map ISax.sax)) (c.map ISax.sax)).buf) := by
       rcases hc with rfl | ⟨t, rfl⟩
-      · simpa [feedAll] using hs1
-      · simp only [List.map_cons, List.map_nil, feedAll_cons, feedAll_nil]
-        exact hs1.chars t
+      · exact ⟨by simpa [feedAll] using hs1, fun h => absurd rfl h⟩
+      · have := hs1.chars (heq1 (by simp)) t
+        exact ⟨by simpa [feedAll] using this.1, fun _ => by simpa [feedAll] using this.2⟩
+    have houtI : normState e (s.out ++ (o ++ c).map ISax.sax)
+        = feedAll e (feedAll e nI (o.map ISax.sax)) (c.map ISax.sax) := by
+      rw [List.map_append, ← List.append_assoc, normState_append, normState_append, hnI]
+    constructor
+    · show Sim e (normState e (s.out ++ (o ++ c).map ISax.sax)) (normState e (w'.out.map ISax.sax))
+      rw [houtI, hP]; exact hsimF.1
+    · show (normState e (s.out ++ (o ++ c).map ISax.sax)).buf ≠ (normState e (w'.out.map ISax.sax)).buf → _
+      rw [houtI, hP]
+      intro hne
+      -- buffers differ only if nothing was appended at all
+      have hc0 : c = [] := by
+        by_cases hc0 : c = []
+        · exact hc0
+        · exact absurd (hsimF.2 hc0) hne
+      subst hc0
+      cases hpd : s.w.pending with
+      | some q => exact absurd (hsome (by simp [hpd])).1 (by simpa [feedAll] using hne)
+      | none =>
+        have ho' := hnone hpd
+        subst ho'
+        have hne' : nI.buf ≠ nP.buf := by simpa [feedAll] using hne
+        rcases hguard hne' with hg | hg
+        · rw [hpd] at hg; cases hg
+        · right; simpa [feedAll] using hg
     · intro hpe
-      obtain ⟨hpn, hpo⟩ := hinv.pend hpe
+      obtain ⟨hpn, hpo⟩ := hpend hpe
       refine ⟨hp, ?_⟩
-      rcases ho with ⟨_, rfl⟩ | ⟨q, a, hq, _⟩
-      · rw [hP]
+      have ho' := hnone hpn
+      subst ho'
+      show (normState e (w'.out.map ISax.sax)).prevOpen = false
+      rw [hP]
+      rcases hc with rfl | ⟨t, rfl⟩
+      · simpa [feedAll] using hpo
+      · simpa [feedAll, NState.feed] using hpo
+    · intro haf
+      left
+      show (normState e (w'.out.map ISax.sax)).buf = []
+      have haf' : s.afterChars = false ∧ (o ++ c).any Sax.isChars = false := by
+        simpa [Bool.or_eq_false_iff] using haf
+      have hc0 : c = [] := by
         rcases hc with rfl | ⟨t, rfl⟩
-        · simpa [feedAll] using hpo
-        · simpa [feedAll, NState.feed] using hpo
-      · rw [hpn] at hq; cases hq
+        · rfl
+        · have := haf'.2; simp [Sax.isChars] at this
+      subst hc0
+      rw [hP]
+      cases hpd : s.w.pending with
+      | some q => simpa [feedAll] using (hsome (by simp [hpd])).2
+      | none =>
+        have ho' := hnone hpd
+        subst ho'
+        rcases hflag haf'.1 with h | h
+        · simpa [feedAll] using h
+        · rw [hpd] at h; cases h
+    · show s.level = (normState e (w'.out.map ISax.sax)).depth + pend1 w'
+      rw [hP]
+      have hd2 : (feedAll e (feedAll e nP (o.map ISax.sax)) (c.map ISax.sax)).depth
+          = (feedAll e nP (o.map ISax.sax)).depth := by
+        rcases hc with rfl | ⟨t, rfl⟩ <;> rfl
+      rw [hd2, hdep, hlvl]
+      simp [pend1, hp]
   | start q =>
     obtain ⟨ho, rfl, hp⟩ := hsh
-    have hs1 := feed_open_part hinv.sim ho hbo
-    have hs2 : Sim e true (normState e (s.out ++ (o ++ []).map ISax.sax)) (normState e (w'.out.map ISax.sax)) := by
-      rw [normState_append, hP]
-      simpa [feedAll] using hs1.weaken (g' := true) (by intro h; cases h)
-    by_cases hl : s.level = 0
-    · simp only [IState.step, hsup, hi, hl, ne_eq, not_true_eq_false, if_false]
+    obtain ⟨hs1, hsome, hnone, hdep⟩ := feed_open_part hsim ho
+    have hP' : normState e (w'.out.map ISax.sax) = feedAll e nP (o.map ISax.sax) := by
+      rw [hP]; rfl
+    have houtI : normState e (s.out ++ (o ++ []).map ISax.sax) = feedAll e nI (o.map ISax.sax) := by
+      rw [List.append_nil, normState_append, hnI]
+    have hany : (o ++ ([] : List Sax)).any Sax.isChars = false := by
+      rcases ho with ⟨_, rfl⟩ | ⟨q', a, _, rfl⟩ <;> rfl
+    have hlvl' : s.level + 1 = (normState e (w'.out.map ISax.sax)).depth + pend1 w' := by
+      rw [hP', hdep, hlvl]; simp [pend1, hp]; try omega
+    by_cases hl : (s.level ≠ 0 && !(s.afterChars || (o ++ []).any Sax.isChars)) = true
+    · -- layout is written: the plain buffer is empty
+      simp only [IState.step, hsup, hi, hl, if_true]
+      refine ⟨_, rfl, rfl, ?_⟩
+      have haf : s.afterChars = false := by
+        simp only [hany, Bool.or_false, Bool.and_eq_true, Bool.not_eq_true'] at hl
+        exact hl.2
+      have hbP : (feedAll e nP (o.map ISax.sax)).buf = [] := by
+        cases hpd : s.w.pending with
+        | some q' => exact (hsome (by simp [hpd])).2
+        | none =>
+          have ho' := hnone hpd
+          subst ho'
+          rcases hflag haf with h | h
+          · simpa [feedAll] using h
+          · rw [hpd] at h; cases h
+      have hsimW := (hs1.ws _ (W_newline e) hbP).ws _ (W_strMul e i s.level hW) hbP
+      have houtW : normState e ((s.out ++ (o ++ []).map ISax.sax ++ [ISax.ws ['\n']]) ++ [ISax.ws (strMul i s.level)])
+          = ((feedAll e nI (o.map ISax.sax)).feed e (.ws ['\n'])).feed e (.ws (strMul i s.level)) := by
+        rw [normState_append, normState_append, houtI]; rfl
+      constructor
+      · simp only [IState.ignorableWs]
+        rw [houtW, hP']; exact hsimW
+      · intro _; left; simp [IState.ignorableWs, hp]
+      · intro h; cases h
+      · intro _; right; simp [IState.ignorableWs, hp]
+      · exact hlvl'
+    · simp only [IState.step, hsup, hi, hl]
       refine ⟨_, rfl, rfl, ?_⟩
       constructor
-      · simpa [hp] using hs2
+      · simp only [Bool.false_eq_true, if_false]
+        rw [houtI, hP']; exact hs1
+      · intro _; left; simp [hp]
       · intro h; cases h
-    · simp only [IState.step, hsup, hi, hl, ne_eq, not_false_eq_true, if_true]
-      refine ⟨_, rfl, rfl, ?_⟩
-      constructor
-      · simp only [IState.ignorableWs, hp, Option.isSome_some, List.append_assoc]
-        rw [← List.append_assoc, normState_append]
-        simp only [List.cons_append, List.nil_append, feedAll_cons, feedAll_nil]
-        exact (hs2.ws _ (W_newline e) (fun _ => rfl)).ws _ (W_strMul e i _ hW) (fun _ => rfl)
-      · intro h; cases h
+      · intro _; right; simp [hp]
+      · simpa using hlvl'
   | «end» q =>
     obtain ⟨ho, hc, hp⟩ := hsh
     simp only [IState.step, hi]
     -- the state before `super().end_tag`
-    generalize hs0 : (if s.pendingEnd = true then
+    generalize hs0 : ({ (if (s.pendingEnd && !s.afterChars) = true then
         (({ s with level := s.level - 1 } : IState).ignorableWs ['\n']).ignorableWs (strMul i (s.level - 1))
-        else { s with level := s.level - 1 }) = s0
+        else { s with level := s.level - 1 }) with afterChars := false } : IState) = s0
     have hw0 : s0.w = s.w := by rw [← hs0]; split <;> rfl
-    have hpe0 : s0.pendingEnd = s.pendingEnd := by rw [← hs0]; split <;> rfl
     have hl0 : s0.level = s.level - 1 := by rw [← hs0]; split <;> rfl
-    have hsim0 : Sim e s.w.pending.isSome (normState e s0.out) (normState e (s.w.out.map ISax.sax)) := by
+    have haf0 : s0.afterChars = false := by rw [← hs0]
+    have hpe0 : s0.pendingEnd = s.pendingEnd := by rw [← hs0]; split <;> rfl
+    have hsim0 : Sim e (normState e s0.out) nP ∧
+        ((normState e s0.out).buf ≠ nP.buf → s.w.pending.isSome = true ∨ nP.prevOpen = false) := by
       rw [← hs0]
-      by_cases hpe : s.pendingEnd = true
-      · obtain ⟨_, hpo⟩ := hinv.pend hpe
-        simp only [hpe, if_true, IState.ignorableWs, List.append_assoc]
-        rw [normState_append]
-        simp only [List.cons_append, List.nil_append, feedAll_cons, feedAll_nil]
-        have hg : (normState e (s.w.out.map ISax.sax)).prevOpen = true → s.w.pending.isSome = true := by
-          intro h; rw [hpo] at h; cases h
-        exact (hinv.sim.ws _ (W_newline e) hg).ws _ (W_strMul e i _ hW) hg
-      · simpa [hpe] using hinv.sim
+      by_cases hpe : (s.pendingEnd && !s.afterChars) = true
+      · simp only [Bool.and_eq_true, Bool.not_eq_true'] at hpe
+        obtain ⟨hpn, hpo⟩ := hpend hpe.1
+        have hb : nP.buf = [] := by
+          rcases hflag hpe.2 with h | h
+          · exact h
+          · rw [hpn] at h; cases h
+        simp only [hpe.1, hpe.2, Bool.not_false, Bool.and_self, if_true, IState.ignorableWs, List.append_assoc]
+        rw [normState_append, hnI]
+        exact ⟨(hsim.ws _ (W_newline e) hb).ws _ (W_strMul e i _ hW) hb, fun _ => Or.inr hpo⟩
+      · simp only [hpe, Bool.false_eq_true, if_false]
+        rw [hnI]
+        refine ⟨hsim, fun hne => ?_⟩
+        rcases hguard hne with h | h
+        · exact Or.inl h
+        · exact Or.inr h.1
     have hstep0 : s0.w.step m isDt (.end q) = .ok w' := by rw [hw0]; exact hstep
     have hout0 : w'.out = s0.w.out ++ (o ++ c) := by rw [hw0]; exact hout
     have hsup0 := super_of_step hstep0 hout0
     rw [hsup0]
-    have hs1 := feed_open_part hsim0 ho hbo
-    -- after the end tag and the tail
-    have hbc : ∀ t, c = [Sax.close q] ∨ c = [Sax.close q, Sax.chars t] →
-        ((feedAll e (normState e (s.w.out.map ISax.sax)) (o.map ISax.sax)).feed e (.sax (.close q))).bad = false := by
-      intro t hc'
-      rw [hP] at hbad
-      rcases hc' with rfl | rfl
-      · simpa [feedAll] using hbad
-      · simp only [List.map_cons, List.map_nil, feedAll_cons, feedAll_nil] at hbad
-        exact feed_bad_mono e _ _ hbad
-    have hs2 : Sim e false (normState e (s0.out ++ (o ++ c).map ISax.sax)) (normState e (w'.out.map ISax.sax)) := by
-      rw [normState_append, hP, List.map_append, feedAll_append]
+    obtain ⟨hs1, hsome, hnone, hdep⟩ := feed_open_part hsim0.1 ho
+    -- the end tag
+    have hctx : (feedAll e (normState e s0.out) (o.map ISax.sax)).buf ≠ (feedAll e nP (o.map ISax.sax)).buf →
+        (feedAll e nP (o.map ISax.sax)).prevOpen = false := by
+      intro hne
+      cases hpd : s.w.pending with
+      | some q' => exact absurd (hsome (by simp [hpd])).1 hne
+      | none =>
+        have ho' := hnone hpd
+        subst ho'
+        have hne' : (normState e s0.out).buf ≠ nP.buf := by simpa [feedAll] using hne
+        rcases hsim0.2 hne' with h | h
+        · rw [hpd] at h; cases h
+        · simpa [feedAll] using h
+    have hcl := hs1.close q hctx
+    have hsim2 : Sim e (feedAll e (feedAll e (normState e s0.out) (o.map ISax.sax)) (c.map ISax.sax))
+        (feedAll e (feedAll e nP (o.map ISax.sax)) (c.map ISax.sax)) ∧
+        (feedAll e (feedAll e (normState e s0.out) (o.map ISax.sax)) (c.map ISax.sax)).buf
+          = (feedAll e (feedAll e nP (o.map ISax.sax)) (c.map ISax.sax)).buf := by
       rcases hc with rfl | ⟨t, rfl⟩
-      · simp only [List.map_cons, List.map_nil, feedAll_cons, feedAll_nil]
-        exact hs1.close q (hbc [] (Or.inl rfl)) false
-      · simp only [List.map_cons, List.map_nil, feedAll_cons, feedAll_nil]
-        exact (hs1.close q (hbc t (Or.inr rfl)) false).chars t
+      · simpa [feedAll] using hcl
+      · have := hcl.1.chars hcl.2 t
+        simpa [feedAll] using this
+    have houtI : normState e (s0.out ++ (o ++ c).map ISax.sax)
+        = feedAll e (feedAll e (normState e s0.out) (o.map ISax.sax)) (c.map ISax.sax) := by
+      rw [List.map_append, ← List.append_assoc, normState_append, normState_append]
     have hpo' : (normState e (w'.out.map ISax.sax)).prevOpen = false := by
       rw [hP]
       rcases hc with rfl | ⟨t, rfl⟩ <;> rfl
+    have hd' : (normState e (w'.out.map ISax.sax)).depth = nP.depth + pend1 s.w - 1 := by
+      rw [hP]
+      have : (feedAll e (feedAll e nP (o.map ISax.sax)) (c.map ISax.sax)).depth
+          = (feedAll e nP (o.map ISax.sax)).depth - 1 := by
+        have k := flush_keeps e (feedAll e nP (o.map ISax.sax)) true
+        rcases hc with rfl | ⟨t, rfl⟩ <;>
+          simp only [List.map_cons, List.map_nil, feedAll_cons, feedAll_nil, NState.feed] <;> rw [k.2.1]
+      rw [this, hdep]
+    have hlvl' : s0.level = (normState e (w'.out.map ISax.sax)).depth + pend1 w' := by
+      rw [hl0, hd', hlvl]; simp [pend1, hp]
+    have hflag' : (false || (o ++ c).any Sax.isChars) = false → (normState e (w'.out.map ISax.sax)).buf = [] := by
+      intro haf
+      have hc0 : c = [Sax.close q] := by
+        rcases hc with rfl | ⟨t, rfl⟩
+        · rfl
+        · simp [Sax.isChars] at haf
+      subst hc0
+      rw [hP]
+      have k := flush_keeps e (feedAll e nP (o.map ISax.sax)) true
+      simp only [List.map_cons, List.map_nil, feedAll_cons, feedAll_nil, NState.feed]
+      exact k.2.2.2
     by_cases hl : s0.level = 0
-    · refine ⟨_, rfl, by simp [hl, IState.ignorableWs], ?_⟩
+    · -- the root element has ended: a final newline
+      have hd0 : (normState e (w'.out.map ISax.sax)).depth = 0 := by
+        rw [hl] at hlvl'; simp [pend1, hp] at hlvl'; omega
+      -- a tail written after the root's end tag would be character data outside the root
+      have hc0 : c = [Sax.close q] := by
+        rcases hc with rfl | ⟨t, rfl⟩
+        · rfl
+        · exfalso
+          rw [hP] at hbad hd0
+          simp only [List.map_cons, List.map_nil, feedAll_cons, feedAll_nil] at hbad hd0
+          rw [depth_feed_chars] at hd0
+          simp [NState.feed, hd0] at hbad
+          have := hd0
+          simp [NState.feed] at this
+          omega
+      refine ⟨_, rfl, by simp [hl, IState.ignorableWs, haf0], ?_⟩
+      have hbP : (normState e (w'.out.map ISax.sax)).buf = [] := by
+        apply hflag'; subst hc0; rcases ho with ⟨_, rfl⟩ | ⟨q', a, _, rfl⟩ <;> rfl
       constructor
-      · simp only [hl, if_true, IState.ignorableWs, hp, Option.isSome_none]
-        rw [normState_append]
-        exact hs2.ws _ (W_newline e) (by intro h; rw [hpo'] at h; cases h)
+      · simp only [hl, if_true, IState.ignorableWs, haf0]
+        rw [normState_append, houtI, hP]
+        have := hsim2.1.ws _ (W_newline e) (by rw [← hP]; exact hbP)
+        simpa [feedAll] using this
+      · intro _
+        right
+        simp only [hl, if_true, IState.ignorableWs]
+        exact ⟨hpo', hd0⟩
       · intro _
         simp only [hl, if_true, IState.ignorableWs]
         exact ⟨hp, hpo'⟩
+      · intro haf
+        left
+        simp only [hl, if_true, IState.ignorableWs, haf0] at haf ⊢
+        exact hflag' haf
+      · simp only [hl, if_true, IState.ignorableWs]
+        rw [← hl]; exact hlvl'
     · refine ⟨_, rfl, by simp [hl], ?_⟩
       constructor
-      · simpa [hl, hp] using hs2
+      · simp only [hl, if_false]
+        rw [houtI, hP]; exact hsim2.1
+      · intro hne
+        simp only [hl, if_false] at hne
+        rw [houtI, hP] at hne
+        exact absurd hsim2.2 hne
       · intro _
         simp only [hl, if_false]
         exact ⟨hp, hpo'⟩
+      · intro haf
+        left
+        simp only [hl, if_false, haf0] at haf ⊢
+        exact hflag' haf
+      · simp only [hl, if_false]
+        exact hlvl'
 
 end Xs.Backends
 
@@ -477,6 +651,17 @@ theorem step_erase (m : NsMap) (isDt : Str → Bool) (indent : Option Str) (s : 
     match s.w.step m isDt ev with
     | .ok w' => ∃ s', s.step m isDt indent ev = .ok s' ∧ s'.w = w' ∧ eraseWs s'.out = w'.out
     | .error x => s.step m isDt indent ev = .error x := by
+  -- the state `end_tag` hands to the inherited method
+  have pre : ∀ (i : Str), ∃ s0 : IState, ({ (if (s.pendingEnd && !s.afterChars) = true then
+        (({ s with level := s.level - 1 } : IState).ignorableWs ['\n']).ignorableWs (strMul i (s.level - 1))
+        else { s with level := s.level - 1 }) with afterChars := false } : IState) = s0 ∧
+        s0.w = s.w ∧ eraseWs s0.out = s.w.out := by
+    intro i
+    refine ⟨_, rfl, ?_, ?_⟩
+    · split <;> rfl
+    · split
+      · simp only [IState.ignorableWs, eraseWs_append, eraseWs_ws, List.append_nil]; exact h
+      · exact h
   cases hst : s.w.step m isDt ev with
   | error x =>
     have hsup := super_err (s := s) hst
@@ -490,10 +675,8 @@ theorem step_erase (m : NsMap) (isDt : Str → Bool) (indent : Option Str) (s : 
       | none => simp only [hsup]
       | some i =>
         simp only []
-        generalize hs0 : (if s.pendingEnd = true then
-            (({ s with level := s.level - 1 } : IState).ignorableWs ['\n']).ignorableWs (strMul i (s.level - 1))
-            else { s with level := s.level - 1 }) = s0
-        have hw0 : s0.w = s.w := by rw [← hs0]; split <;> rfl
+        obtain ⟨s0, hs0, hw0, _⟩ := pre i
+        rw [hs0]
         have hst0 : s0.w.step m isDt (.end q) = .error x := by rw [hw0]; exact hst
         rw [super_err hst0]
   | ok w' =>
@@ -510,27 +693,19 @@ theorem step_erase (m : NsMap) (isDt : Str → Bool) (indent : Option Str) (s : 
       | none => exact ⟨_, rfl, rfl, hE⟩
       | some i =>
         simp only []
-        by_cases hl : s.level = 0
-        · simp only [hl, ne_eq, not_true_eq_false, if_false]
-          exact ⟨_, rfl, rfl, hE⟩
-        · simp only [hl, ne_eq, not_false_eq_true, if_true]
-          refine ⟨_, rfl, rfl, ?_⟩
+        split
+        · refine ⟨_, rfl, rfl, ?_⟩
           simp only [IState.ignorableWs, eraseWs_append, eraseWs_ws, List.append_nil]
           rw [← eraseWs_append]; exact hE
+        · exact ⟨_, rfl, rfl, hE⟩
     | «end» q =>
       simp only [IState.step]
       cases hi : indentOn indent with
       | none => exact ⟨_, hsup, rfl, hE⟩
       | some i =>
         simp only []
-        generalize hs0 : (if s.pendingEnd = true then
-            (({ s with level := s.level - 1 } : IState).ignorableWs ['\n']).ignorableWs (strMul i (s.level - 1))
-            else { s with level := s.level - 1 }) = s0
-        have hw0 : s0.w = s.w := by rw [← hs0]; split <;> rfl
-        have he0 : eraseWs s0.out = s.w.out := by
-          rw [← hs0]; split
-          · simp only [IState.ignorableWs, eraseWs_append, eraseWs_ws, List.append_nil]; exact h
-          · exact h
+        obtain ⟨s0, hs0, hw0, he0⟩ := pre i
+        rw [hs0]
         have hst0 : s0.w.step m isDt (.end q) = .ok w' := by rw [hw0]; exact hst
         have hd0 : w'.out = s0.w.out ++ d := by rw [hw0]; exact hd
         rw [super_of_step hst0 hd0]
@@ -622,7 +797,12 @@ theorem eventsSax_err (m : NsMap) (isDt : Str → Bool) (evs : List Ev) (x : Err
   | error y => simpa [hf, bind, Except.bind] using h
   | ok wf => simp [hf, bind, Except.bind, pure, Except.pure] at h
 
-theorem Inv.init (e : Env) : Inv e {} := ⟨Sim.refl e _ _, by intro h; cases h⟩
+theorem Inv.init (e : Env) : Inv e {} where
+  sim := Sim.refl e _
+  guard := fun h => absurd rfl h
+  pend := fun h => by cases h
+  flag := fun _ => Or.inl rfl
+  lvl := rfl
 
 end Xs.Backends
 
@@ -749,5 +929,51 @@ theorem renderDoc_map_sax (d : Nat) (xs : List Sax) : renderDoc d (xs.map ISax.s
   induction xs generalizing d with
   | nil => rfl
   | cons x xs ih => cases x <;> simp [renderDoc, ih]
+
+end Xs.Backends
+
+namespace Xs.Backends
+open Py Xs.Bind
+
+/-! ### a call stream that builds a tree keeps its character data inside elements -/
+
+theorem saxTree_charsInside (m : NsMap) (xs : List Sax) :
+    ∀ (stack : List Frame) (done : Option Tree) (t : Tree),
+      saxTree m xs stack done = some t → charsInsideFrom (stack.length : Int) xs = true := by
+  induction xs with
+  | nil => intro _ _ _ _; rfl
+  | cons x r ih =>
+    intro stack done t h
+    cases x with
+    | «open» q a =>
+      simp only [saxTree] at h
+      split at h
+      · cases h
+      · have := ih _ _ _ h
+        simp only [charsInsideFrom]
+        simpa using this
+    | chars s =>
+      cases stack with
+      | nil => simp [saxTree] at h
+      | cons f st =>
+        simp only [saxTree] at h
+        simp only [charsInsideFrom, Bool.and_eq_true, bne_iff_ne, ne_eq]
+        refine ⟨by simp only [List.length_cons]; omega, ?_⟩
+        split at h
+        · have := ih _ _ _ h; simpa using this
+        · have := ih _ _ _ h; simpa using this
+    | close q =>
+      cases stack with
+      | nil => simp [saxTree] at h
+      | cons f st =>
+        simp only [saxTree] at h
+        split at h
+        · cases h
+        · simp only [charsInsideFrom]
+          cases st with
+          | nil => simpa using ih _ _ _ h
+          | cons p ps =>
+            have := ih _ _ _ h
+            simpa using this
 
 end Xs.Backends
